@@ -241,6 +241,51 @@ func TestEveryConstructIndividually(t *testing.T) {
 	}
 }
 
+// Unicode property classes and their negations, alone and inside bracket groups.  The reference model has no
+// semantics for \p{..} (the documentation lists the classes and also says they are not included; most tables are
+// empty), so this is decided relationally and on single ASCII characters only: \P{X} matches c iff \p{X} does not,
+// and a class means the same inside a bracket group as outside: [\p{X}_], [\P{X}], [^\p{X}], [^\P{X}].
+func TestUnicodeClassesOnCharacters(t *testing.T) {
+	rec.Begin(t)
+	rec.Rule(rule)
+	if rec.Shard() != 0 {
+		t.Skip("seed independent: shard 0 only")
+	}
+	names := []string{"Letter", "L", "Lu", "Ll", "Lt", "Lm", "Lo", "Mark", "M", "Mn", "Mc", "Me", "Number", "N", "Nd", "Nl", "No", "Punctuation", "P", "Pc", "Pd", "Ps", "Pe", "Pi", "Pf", "Po",
+		"Symbol", "S", "Sm", "Sc", "Sk", "So", "Separator", "Z", "Zs", "Zl", "Zp", "Latin", "Greek", "Cyrillic", "Han", "Persian", "Math", "Emoji"}
+	accepts := func(d *auto.DFA, c rune) bool { return d.Accept(auto.String{auto.Symbol(c)}) }
+	for _, name := range names {
+		build := func(p string) *auto.DFA {
+			var d *auto.DFA
+			var err error
+			if perr := rec.Guard(func() { d, err = spec.VerifRegexToDFA(p) }); perr != nil || err != nil {
+				rec.Fail(t, "class", map[string]any{"pattern": p}, "pattern %q: %v %v", p, perr, err)
+				return nil
+			}
+			return d
+		}
+		pos, neg := build(`\p{`+name+`}`), build(`\P{`+name+`}`)
+		inPos, inNeg, outPos, outNeg := build(`[\p{`+name+`}_]`), build(`[\P{`+name+`}]`), build(`[^\p{`+name+`}]`), build(`[^\P{`+name+`}]`)
+		if pos == nil || neg == nil || inPos == nil || inNeg == nil || outPos == nil || outNeg == nil {
+			continue
+		}
+		for c := rune(1); c < 0x80; c++ {
+			in := accepts(pos, c)
+			rec.Case(fmt.Sprintf("class:%s:%x", name, c), true, "unicode_class_on_character")
+			check := func(form string, got, expect bool) {
+				if got != expect {
+					rec.Fail(t, "class", map[string]any{"pattern": form, "char": int(c)}, "pattern %s on the character U+%04X: matches=%v, expected %v (\\p{%s} matches it: %v)", form, c, got, expect, name, in)
+				}
+			}
+			check(`[\p{`+name+`}_]`, accepts(inPos, c), in || c == '_')
+			check(`\P{`+name+`}`, accepts(neg, c), !in)
+			check(`[\P{`+name+`}]`, accepts(inNeg, c), !in)
+			check(`[^\p{`+name+`}]`, accepts(outPos, c), !in)
+			check(`[^\P{`+name+`}]`, accepts(outNeg, c), in)
+		}
+	}
+}
+
 func TestPredefinedPatterns(t *testing.T) {
 	rec.Begin(t)
 	rec.Rule(rule)
